@@ -31,6 +31,7 @@ type FlowOpts struct {
 	BigPayload         int // permille of payloads in the KiB range
 	BreakW             int // weight of the environment action "break connection"
 	PartW              int // weight of the environment action "partition" (the connection goes silent)
+	FaultFrom          int // faults only from this step on (the budget otherwise drains on the first opportunities)
 	InWindow           int  // the broker's in-flight window: no new message while that many QoS 1/2 transactions are open (0: unlimited)
 	ReuseIDs           bool // the broker reuses packet identifiers as soon as their transaction is complete
 	LazyResend         bool // the broker postpones the retransmission of messages the application holds unacknowledged
@@ -343,6 +344,7 @@ func drawFlowOpts(t *Tape, thorough bool) FlowOpts {
 	}
 	o.Disk.Shuffle = t.Flip("lshuffle", 500)
 	o.Budget = t.Draw("budget", 9)
+	o.FaultFrom = []int{0, 0, 0, 0, 40, 100, 200}[t.Draw("faultfrom", 7)]
 	o.ReqMix = [rkKinds]int{3, 1, 2, 1, 1, 2, 2}
 	o.QuitMix = [4]int{4, 2, 1, 2}
 	o.FailFilter = 200
